@@ -66,12 +66,24 @@ class GraphML:
         return etree.tostring(tree, method='xml').decode('utf-8')
 
     @staticmethod
+    def nx_generate_graphml(graph: nx.Graph) -> str:
+        """
+        GraphML text of a NetworkX graph. Unlike '\\n'.join(nx.generate_graphml(graph)) the text is
+        not re-split into lines, and a carriage return inside a property value is written as
+        the character reference &#13; so that XML line-end normalization cannot turn it into
+        a line feed (ElementTree writes it raw in element text).
+        """
+        writer = nx.readwrite.graphml.GraphMLWriter(encoding='utf-8', prettyprint=True)
+        writer.add_graph_element(graph)
+        return str(writer).replace('\r', '&#13;')
+
+    @staticmethod
     def nx_write_graphml(graph: nx.Graph, file_name: str):
         """
         Replacement for nx.write_graphml that writes in a way that is compatible
         with Neo4j GraphML
         """
-        graph_string = '\n'.join(nx.generate_graphml(graph))
+        graph_string = GraphML.nx_generate_graphml(graph)
         graph_string = GraphML.networkx_to_neo4j(graph_string)
         with open(file_name, 'w') as f:
             f.write(graph_string)
